@@ -697,16 +697,28 @@ fn derive_func_op_shape(def: &FuncOpDef, symbol_table: &mut BTreeMap<Rc<str>, Sh
                     types: NarrowingShape::Any,
                     ..
                 }) => ret.with_pos(pos.clone()),
-                _ => match acc_shape.narrow(&ret, symbol_table) {
-                    // The accumulator comes back as it is for an empty
-                    // target, anything else yields what the callback
-                    // returned last. Either is possible when they differ.
-                    Shape::TypeErr(_, _) => Shape::Narrowed(NarrowedShape::new_with_pos(
-                        vec![acc_shape, ret],
-                        pos.clone(),
-                    )),
-                    other => other,
-                },
+                _ => {
+                    // Of two tuples narrowing keeps the one with fewer fields,
+                    // which loses what the callback adds to the accumulator.
+                    let widened = match (&acc_shape, &ret) {
+                        (Shape::Tuple(a), Shape::Tuple(r)) => a.val.len() != r.val.len(),
+                        _ => false,
+                    };
+                    match acc_shape.narrow(&ret, symbol_table) {
+                        // The accumulator comes back as it is for an empty
+                        // target, anything else yields what the callback
+                        // returned last. Either is possible when they differ.
+                        Shape::TypeErr(_, _) => Shape::Narrowed(NarrowedShape::new_with_pos(
+                            vec![acc_shape, ret],
+                            pos.clone(),
+                        )),
+                        _ if widened => Shape::Narrowed(NarrowedShape::new_with_pos(
+                            vec![acc_shape, ret],
+                            pos.clone(),
+                        )),
+                        other => other,
+                    }
+                }
             }
         }
     }
